@@ -102,7 +102,26 @@ Definition model_proj (c : l2case) : string :=
   | _ => ""
   end.
 
+(* ---- regeneration (C15): the model's own prediction of what a second run over the first
+   run's output yields.  The generated file contributes its import specs to the alias map
+   of the next run, before or after the source files' specs depending on its file name. ---- *)
+Definition with_generated (i : input) (d : data) (first : bool) : input :=
+  let specs := map (fun im => (i_path im, i_alias im)) (d_imports d) in
+  mkInput (in_src i) (if first then specs ++ in_specs i else in_specs i ++ specs)%list
+          (in_dir_oracle i) (in_lookup i).
+Definition regen_stable (c : l2case) (first : bool) : bool :=
+  match mock_run (lc_input c) (lc_cfg c) (lc_args c) with
+  | Ok d =>
+    match mock_run (with_generated (lc_input c) d first) (lc_cfg c) (lc_args c) with
+    | Ok d' => String.eqb (proj_data d) (proj_data d')
+    | _ => false
+    end
+  | _ => true
+  end.
+
 Definition verdicts (cs : list l2case) : list (string * string) :=
   map (fun c => let v := verdict c in
-                (lc_id c, v ++ "|" ++ join "," (families c) ++
+                (lc_id c, v ++ "|" ++ join "," (families c ++
+                                (if regen_stable c false then [] else ["regen_unstable_last"]) ++
+                                (if regen_stable c true then [] else ["regen_unstable_first"]))%list ++
                           (if String.eqb v "DIFF-structure" then "|" ++ model_proj c else ""))) cs.
